@@ -191,7 +191,11 @@ where
             vi_swaps: None,
             vi_positions: None,
             now: 1_000_000,
-            clocks: BTreeMap::new(),
+            // like `Market::init`: the accrual clocks start at the creation time
+            clocks: [ClockKind::PriceImpactDistribution, ClockKind::Borrowing, ClockKind::Funding]
+                .into_iter()
+                .map(|k| (clock_id(k), 1_000_000u64))
+                .collect(),
             shortfalls: Vec::new(),
         }
     }
